@@ -280,6 +280,31 @@ func (g *gen) opAlias() bool {
 	return true
 }
 
+// opAliasRoleHolder: the holder of the NFT (T, n) is ALSO given the owner-side roles of a token id whose (id, nonce) pair
+// aliases its holding's storage key (T‖n with nonce 0, or T‖n[:k] with nonce n[k:]), then runs every own-holding function
+// through that spelling: the role check passes, so only the holding look-up itself stands between the call and a foreign
+// entry (supply, footprint, well-formedness). No random choice beyond the pick: the same calls for every seed.
+func (g *gen) opAliasRoleHolder() bool {
+	x, ok := g.pickHeld(isNFT)
+	if !ok {
+		return false
+	}
+	full := append(append([]byte{}, x.h.tok...), x.h.nb()...)
+	pairs := [][2][]byte{{full, {}}, {full, {0}}}
+	if nb := x.h.nb(); len(nb) > 1 {
+		pairs = append(pairs, [2][]byte{full[:len(x.h.tok)+1], append([]byte{}, nb[1:]...)})
+	}
+	for _, p := range pairs {
+		tok, nb := p[0], p[1]
+		g.do(g.sys(oracle.FnSetRole, x.a, tok, []byte(oracle.RoleNFTAddQty), []byte(oracle.RoleNFTBurn), []byte(oracle.RoleNFTAddURI), []byte(oracle.RoleNFTUpdateAtt)))
+		g.do(g.user(oracle.FnNFTAddQty, x.a, x.a, bigGas, tok, nb, []byte{5}))
+		g.do(g.user(oracle.FnNFTBurn, x.a, x.a, bigGas, tok, nb, []byte{1}))
+		g.do(g.user(oracle.FnNFTAddURI, x.a, x.a, bigGas, tok, nb, []byte("u")))
+		g.do(g.user(oracle.FnNFTUpdate, x.a, x.a, bigGas, tok, nb, []byte("a")))
+	}
+	return true
+}
+
 // opAliasTokens: two REAL tokens whose storage keys alias (C11: "token ids that alias other keys when concatenated with a
 // nonce" — in the state, not only in the arguments; reachable with ESDTSetRole / ESDTLocalMint / ESDTNFTCreate alone):
 //   (a) a fungible token T‖n next to the NFT (T, n): the fungible one is credited onto the NFT's holder (F9);
@@ -546,8 +571,44 @@ func (g *gen) opPauseToggle() bool {
 	if len(paused) > 0 && (len(paused) >= 2 || g.r.Intn(2) == 0) {
 		fn, tok = oracle.FnUnPause, g.pick(paused)
 	}
-	g.do(spec{shard: shard, fn: fn, caller: oracle.ESDTSC, rcv: oracle.SystemAccount, args: [][]byte{tok}})
+	rcv := oracle.SystemAccount
+	if g.r.Intn(4) == 0 {
+		// another spelling of the system address (the library accepts any address whose first 30 bytes are 0xff, e.g. the
+		// per-shard form ff…ff‖shard): the flag must land where every other function reads it all the same
+		rcv = append([]byte{}, oracle.SystemAccount...)
+		rcv[31] = byte(shard)
+		if g.r.Intn(3) == 0 {
+			rcv[30], rcv[31] = byte(g.r.Intn(256)), byte(g.r.Intn(256))
+		}
+	}
+	g.do(spec{shard: shard, fn: fn, caller: oracle.ESDTSC, rcv: rcv, args: [][]byte{tok}})
 	g.setFocus(nil, tok)
+	return true
+}
+
+// opPauseSpelled: pause sent to the per-shard spelling of the system address, a transfer of the token (must be refused),
+// un-pause sent to yet another spelling, the transfer again (must pass). Same calls for every seed beyond the pick.
+func (g *gen) opPauseSpelled() bool {
+	x, ok := g.pickHeld(isFung)
+	if !ok {
+		return false
+	}
+	sh := g.shardOf(x.a)
+	if sh < 0 {
+		return false
+	}
+	b := g.otherThan(x.a, g.sameShard(x.a))
+	if b == nil {
+		b = g.otherThan(x.a, nil)
+	}
+	sp1 := append([]byte{}, oracle.SystemAccount...)
+	sp1[31] = byte(sh)
+	sp2 := append([]byte{}, oracle.SystemAccount...)
+	sp2[30], sp2[31] = 0, 1
+	g.do(spec{shard: sh, fn: oracle.FnPause, caller: oracle.ESDTSC, rcv: sp1, args: [][]byte{x.h.tok}})
+	g.do(g.user(oracle.FnTransfer, x.a, b, bigGas, x.h.tok, []byte{1}))
+	g.do(spec{shard: sh, fn: oracle.FnUnPause, caller: oracle.ESDTSC, rcv: sp2, args: [][]byte{x.h.tok}})
+	g.do(g.user(oracle.FnTransfer, x.a, b, bigGas, x.h.tok, []byte{1}))
 	return true
 }
 
